@@ -11,7 +11,17 @@ mcvars == <<gm, phase, res>>
 
 Srv == [host |-> "this.example", port |-> "7071"]
 
+RECURSIVE Rep(_, _)
+Rep(c, n) == IF n = 0 THEN "" ELSE IF n % 2 = 0 THEN (LET h == Rep(c, n \div 2) IN h \o h) ELSE c \o Rep(c, n - 1)
+
 InfoShapes == {"", "hello world", "  padded text  ", "1NoTabHere /abs", "iLooks like a type"}
+\* local links whose target cannot be stat()ed for a reason OTHER than "not there": the path runs through a
+\* regular file (plain, and the virtual selectors of the mbox / PYG / ZIP handlers), a component is longer
+\* than NAME_MAX, the selector carries a NUL or a non-UTF-8 byte.  Each is still one entry of the listing.
+UnstatShapes == {
+    "0Thru\tx/extra", "0MboxMsg\tm.mbox/MBOX-MESSAGE/2", "0PygExtra\ts.pyg/extra", "0ZipMember\t/abs/a.zip/member",
+    "0LongComp\t" \o Rep("n", 300), "1LongAbs\t/abs/" \o Rep("n", 256) \o "/y",
+    "0Nul\tx{NUL}y", "0High\t/abs/{HI}z"}
 LinkShapes == {
     "1src\t", "0read me\t",                                                        \* 1 field + TAB
     "1Abs\t/abs", "1Abs sub\t/abs/sub", "0Rel\tx", "1Rel dir\tsub", "0Deep\tsub/y", \* 2 fields
@@ -21,6 +31,8 @@ LinkShapes == {
     "1Full\t/r\tr.example\t7070", "1NoHost\t/abs\t\t7070", "1EmptyPort\t/r\tr.example\t", "1BothEmpty\t/abs\t\t",  \* 4 fields
     "1DescSel4\t\tr.example\t70", "1Padded4\t /r \t r.example \t 7070 ", "0RelFull\tx\tr.example\t7070",
     "7RemoteSearch\t/q\tr.example\t70", "1 a < b & c\t/abs"}
+    \cup UnstatShapes
+
 \* outside "well-formed" (E.2): replayed for the design-level comparison only
 BadShapes == {"1Five\t/r\tr.example\t70\t+", "1BadPort\t/r\tr.example\tabc", "\t/notype", "1\t", " \t "}
 Shapes == InfoShapes \cup LinkShapes \cup BadShapes
@@ -28,20 +40,30 @@ Shapes == InfoShapes \cup LinkShapes \cup BadShapes
 Ctx(kind, sel, d) == [kind |-> kind, sel |-> sel, dir |-> d]
 Contexts == {Ctx("dir", "/", "/"), Ctx("dir", "/d", "/d"), Ctx("dir", "/d/e", "/d/e"),
              Ctx("file", "/d/m.gophermap", "/d"), Ctx("file", "/m.gophermap", "/")}
-GM(c, ls, eol) == [kind |-> c.kind, sel |-> c.sel, dir |-> c.dir, lines |-> ls, eol |-> eol, srv |-> Srv]
+\* what the document root holds besides the map itself (materialised by the harness from this record)
+Fix(c) == LET b == IF c.dir = "/" THEN "" ELSE c.dir IN
+          << [p |-> b \o "/x", k |-> "file"], [p |-> b \o "/sub", k |-> "dir"], [p |-> b \o "/sub/y", k |-> "file"],
+             [p |-> b \o "/m.mbox", k |-> "file"], [p |-> b \o "/s.pyg", k |-> "file"],
+             [p |-> "/abs", k |-> "dir"], [p |-> "/abs/sub", k |-> "dir"], [p |-> "/abs/sub/z", k |-> "file"],
+             [p |-> "/abs/a.zip", k |-> "file"] >>
+GM(c, ls, eol) == [kind |-> c.kind, sel |-> c.sel, dir |-> c.dir, lines |-> ls, eol |-> eol, srv |-> Srv, fixtures |-> Fix(c)]
 
 Seq1 == {<<a>> : a \in Shapes}
 Seq2(S) == {<<a, b>> : a \in S, b \in S}
 Seq3(S) == {<<a, b, c>> : a \in S, b \in S, c \in S}
 Good == InfoShapes \cup LinkShapes
+\* triples (thorough) leave out shapes that repeat the case analysis of another shape
+Core == Good \ {"0read me\t", "1Abs sub\t/abs/sub", "0Deep\tsub/y", "hSlashURL\t/URL:http://h.example/", "1Padded4\t /r \t r.example \t 7070 ",
+                 "1DescSel4\t\tr.example\t70", "7RemoteSearch\t/q\tr.example\t70", "1EmptyPort\t/r\tr.example\t", "1BothEmpty\t/abs\t\t",
+                 "0PygExtra\ts.pyg/extra", "0MboxMsg\tm.mbox/MBOX-MESSAGE/2", "1LongAbs\t/abs/" \o Rep("n", 256) \o "/y"}
 
 Cases ==
     {GM(c, ls, eol) : c \in Contexts, ls \in Seq1 \cup {<<>>}, eol \in {"\n", "\r\n"}}
     \cup {GM(Ctx("dir", "/d", "/d"), ls, "\n") : ls \in Seq2(Shapes)}
-    \cup {GM(Ctx("file", "/d/m.gophermap", "/d"), ls, "\n") : ls \in Seq2(IF Tier = "quick" THEN InfoShapes \cup {"0Rel\tx", "1Abs\t/abs"} ELSE Good)}
+    \cup {GM(Ctx("file", "/d/m.gophermap", "/d"), ls, "\n") : ls \in Seq2(IF Tier = "quick" THEN InfoShapes \cup {"0Rel\tx", "1Abs\t/abs", "0Thru\tx/extra"} ELSE Good)}
     \cup (IF Tier = "quick" THEN {}
           ELSE {GM(c, ls, "\r\n") : c \in {Ctx("dir", "/", "/"), Ctx("dir", "/d/e", "/d/e")}, ls \in Seq2(Good)}
-               \cup {GM(Ctx("dir", "/d", "/d"), ls, "\n") : ls \in Seq3(Good)})
+               \cup {GM(Ctx("dir", "/d", "/d"), ls, "\n") : ls \in Seq3(Core)})
 
 Init == gm \in Cases /\ phase = "case" /\ res = [judge |-> "", wf |-> FALSE, cls |-> ""]
 Eval == /\ phase = "case"
